@@ -3,6 +3,7 @@
 patch, (a) demo passes without it. Confirmed ones are stored as /verif/seeded/<name>/ (patch.diff, demo files, meta.json)."""
 import json, os, re, shutil, subprocess, sys
 SRC = sys.argv[1] if len(sys.argv) > 1 else "/tmp/mut/out"
+TAG = sys.argv[2] if len(sys.argv) > 2 else ""        # e.g. "r2": stored as <property>-r2m1
 WT = "/tmp/seedwt"
 ENV = dict(os.environ, GOFLAGS="-mod=mod", GOPROXY="off", GOSUMDB="off", GOTOOLCHAIN="local")
 props = {json.loads(l)["id"]: json.loads(l) for l in open("/verif/properties.jsonl")}
@@ -18,12 +19,14 @@ subprocess.check_call(f"git -C /repo worktree add -q --detach {WT} HEAD", shell=
 results = []
 try:
     for pid in sorted(os.listdir(SRC)):
+        if not os.path.isdir(os.path.join(SRC, pid)):
+            continue
         for m in sorted(os.listdir(os.path.join(SRC, pid))):
             d = os.path.join(SRC, pid, m)
             patch = os.path.join(d, "patch.diff")
             if not os.path.isfile(patch):
                 continue
-            name = f"{pid}-{m}"
+            name = f"{pid}-{TAG}{m}"
             demo = open(os.path.join(d, "DEMO.txt")).read() if os.path.exists(os.path.join(d, "DEMO.txt")) else ""
             copies = re.findall(r"(\S+\.go)\s*->\s*(?:<worktree>/)?(\S+)", demo)
             cmds = [c.strip() for c in re.findall(r"^\s*(go test [^\n]*)", demo, re.M)]
@@ -63,7 +66,7 @@ try:
                     if f.endswith(".go") or f in ("DEMO.txt", "README.md"):
                         shutil.copy(os.path.join(d, f), os.path.join(dst, f))
                 readme = open(os.path.join(d, "README.md")).read() if os.path.exists(os.path.join(d, "README.md")) else ""
-                meta = {"breaks_property": pid, "property_title": props[pid]["title"], "source": "written by a fresh sub-agent that saw only the property text and a scratch worktree",
+                meta = {"round": TAG or "r1", "breaks_property": pid, "property_title": props[pid]["title"], "source": "written by a fresh sub-agent that saw only the property text and a scratch worktree",
                         "needs_to_manifest": (re.search(r"(?is)(trigger|needs|manifest)[^\n]*\n(.{0,600})", readme) or [None, None, ""])[2].strip()[:600],
                         "confirmed_by": {"worktree": "scratch git worktree of /repo HEAD (removed afterwards)",
                                          "go build + go test ./... with patch": "pass", "demonstration with patch": "fails", "demonstration without patch": "passes",
@@ -71,5 +74,5 @@ try:
                 json.dump(meta, open(os.path.join(dst, "meta.json"), "w"), indent=1)
 finally:
     subprocess.run(f"git -C /repo worktree remove --force {WT}", shell=True)
-json.dump(results, open("/verif/seeded/confirmation.json", "w"), indent=1)
+json.dump(results, open(f"/verif/seeded/confirmation{('-' + TAG) if TAG else ''}.json", "w"), indent=1)
 print(sum(1 for r in results if r["status"] == "confirmed"), "confirmed of", len(results))
